@@ -747,6 +747,77 @@ fn check(label: &str, b: &Built, twin: Option<(&Built, &[Needle])>, base_needles
     }
 }
 
+
+// ---------------------------------------------------------------------------------
+// error values: what a caller holds (and logs) when the private inputs are malformed
+// ---------------------------------------------------------------------------------
+
+const GOLDILOCKS: u64 = 0xFFFF_FFFF_0000_0001;
+
+/// Malformed variants of a private witness that the fallible constructors refuse (or may
+/// refuse): the value patterns stay the same, one aspect is broken.
+fn malformations(pr: &Private) -> Vec<(&'static str, Private)> {
+    let mut out = Vec::new();
+    // a sibling with a non-canonical limb (byte alias of a canonical value: low limb + p)
+    for (lvl, sib) in [(0usize, 1usize), (pr.siblings.len() - 1, 2)] {
+        let mut m = pr.clone();
+        let low = u32::from_le_bytes([m.siblings[lvl][sib][0], m.siblings[lvl][sib][1], m.siblings[lvl][sib][2], m.siblings[lvl][sib][3]]).min(u32::MAX - 2) as u64;
+        m.siblings[lvl][sib][..8].copy_from_slice(&(low + GOLDILOCKS).to_le_bytes());
+        out.push((if lvl == 0 { "sibling[0][1] with a non-canonical limb" } else { "last level sibling[2] with a non-canonical limb" }, m));
+    }
+    let mut m = pr.clone();
+    m.positions.pop();
+    out.push(("one position missing", m));
+    let mut m = pr.clone();
+    m.positions[1] = 7;
+    out.push(("position 7 at level 1", m));
+    let mut m = pr.clone();
+    while m.siblings.len() < 17 {
+        let l = m.siblings[m.siblings.len() % pr.siblings.len()];
+        m.siblings.push(l);
+        m.positions.push(1);
+    }
+    out.push(("17 levels", m));
+    out
+}
+
+/// Needles of the secret-class values only (secret, deposit account, digest logs, siblings):
+/// counts, amounts and positions are not searched in error texts, which may legitimately
+/// quote a length or an offending small number.
+fn secret_class_needles(pr: &Private) -> Vec<Needle> {
+    let mut n = NeedleSet::new();
+    n.bytes(&pr.secret, "secret");
+    n.bytes(&pr.account, "deposit account");
+    n.bytes(&pr.digest, "digest logs");
+    for (l, lvl) in pr.siblings.iter().enumerate() {
+        for (s, sib) in lvl.iter().enumerate() {
+            n.bytes(sib, &format!("sibling[{l}][{s}]"));
+        }
+    }
+    n.v
+}
+
+/// Render an error value every way a caller would, and search it.
+fn check_error(label: &str, call: &str, mal: &str, err: &anyhow::Error, needles: &[Needle], t: &mut Tally) {
+    let renderings = [("{:?}", format!("{err:?}")), ("{:#?}", format!("{err:#?}")), ("{}", format!("{err}")), ("{:#}", format!("{err:#}")), ("chain", err.chain().map(|c| c.to_string()).collect::<Vec<_>>().join(" | "))];
+    for (f, text) in renderings {
+        t.renderings += 1;
+        let hay = normalise(&text);
+        t.distinct.push(hash64(&("error", call, &hay)));
+        for n in needles {
+            t.needle_checks += 1;
+            if occurs(&hay, n) {
+                t.findings.push(Finding {
+                    key: format!("error:{call}:{mal}:{}:{f}", n.what),
+                    text: format!("the error returned by {call} for private inputs with {mal} ({label}), rendered with {f}, contains the {} ({})", n.what, n.text),
+                    case: json!({"call": call, "malformation": mal, "pattern": label, "format": f, "needle": n.text, "rendering": text.chars().take(600).collect::<String>()}),
+                });
+                break;
+            }
+        }
+    }
+}
+
 fn main() {
     quiet_panics();
     let tier = tier_from_args();
@@ -796,6 +867,20 @@ fn main() {
             }
             NOT_DUMMY_FLAG.with(|c| c.set(true));
             let pu = public_for(k);
+            // error values of the fallible constructors on malformed private inputs
+            for (mal, mpr) in malformations(pr) {
+                let sn = secret_class_needles(&mpr);
+                let inp = inputs(&pu, &mpr);
+                if let Err(e) = ZkMerkleProofData::try_from(&inp) {
+                    check_error(label, "ZkMerkleProofData::try_from(&CircuitInputs)", mal, &e, &sn, &mut t);
+                }
+                if k < n_prover {
+                    let p = WormholeProver::new(zk_circuits_common::circuit::wormhole_leaf_circuit_config()).unwrap_or_else(|e| machinery_error(&format!("WormholeProver::new: {e}")));
+                    if let Err(e) = p.commit(&inp) {
+                        check_error(label, "WormholeProver::commit", mal, &e, &sn, &mut t);
+                    }
+                }
+            }
             if k < n_prover {
                 let provers = build_provers(&pu, pr);
                 let twins = build_provers(&pu, twin_pr);
@@ -836,7 +921,7 @@ fn main() {
     rep.extra("renderings_checked", json!(renderings));
     rep.extra("needle_checks", json!(checks));
     rep.extra("needles_per_object_max", json!(max_needles));
-    rep.rule("every type/constructor x every value pattern x 5 Debug formats; each rendering (lower-cased, whitespace-normalised) is searched for every needle of every private value of the pattern (secret, deposit account, transfer count, input amount, digest logs, 15 siblings, positions, derived account id). evaluations = renderings; distinct_nontrivial = distinct (type, rendering text)");
+    rep.rule("error values: ZkMerkleProofData::try_from and WormholeProver::commit on 5 malformed variants of every pattern (non-canonical sibling limb at two places, a missing position, position 7, 17 levels), the returned error rendered with {:?}, {:#?}, {}, {:#} and as its cause chain, searched for the secret-class needles (secret, deposit account, digest logs, siblings). Objects: every type/constructor x every value pattern x 5 Debug formats; each rendering (lower-cased, whitespace-normalised) is searched for every needle of every private value of the pattern (secret, deposit account, transfer count, input amount, digest logs, 15 siblings, positions, derived account id). evaluations = renderings; distinct_nontrivial = distinct (type, rendering text)");
     rep.assume("needles are the renderings listed in the evidence (hex/decimal of whole values, 128/64/32-bit parts in both byte orders, felt encodings, byte lists of 4 consecutive bytes); other encodings (base64, bit strings, arithmetic transforms) are not searched");
     rep.assume("explicit serialization outputs (to_bytes / to_field_elements) are secret-carrying by contract and are not Debug-checked");
     std::process::exit(rep.finish());
